@@ -1454,3 +1454,29 @@ def policysel(F, R):
         R.ob('C19.select', ok, {'machine': Facts.short(m.fe, 60), 'declared': want.split('::')[-1], 'used': got.split('::')[-1]})
         if not ok:
             R.find('C19.select', (r['loc'].split(':')[0], r['q']), 'policy', 'machine %s declares %s but the back-end switches the active state with %s' % (Facts.short(m.fe, 60), want.split('::')[-1], got.split('::')[-1]), where=r['loc'], instance=Facts.short(m.fe, 150))
+
+@rule('cvkeys')
+def cvkeys(F, R):
+    """C18.cv-key: an event is the same event whether it was submitted as an rvalue, an lvalue or a const lvalue.  The library's
+    type-level lookups keyed by the event type (is this event deferred by the state, is it a completion / Kleene event, ...) must not
+    depend on cv / reference qualifiers of that argument: whenever a metafunction of the library is instantiated for argument lists that
+    differ only in such qualifiers, its `type` / `value` results agree."""
+    import collections
+    groups = collections.defaultdict(dict)
+    for r in F.records:
+        if not r['loc'].startswith('boost/msm/') or not r.get('a'): continue
+        if 'type' not in r['tds'] and 'value' not in r['consts']: continue
+        t = F.strs[r['t']]
+        h, a, rest = parse_type(t)
+        if not a or rest.strip(): continue
+        key = (h, tuple(strip_cvref(x) for x in a))
+        groups[key][tuple(a)] = (F.strs[r['tds']['type']] if 'type' in r['tds'] else None, r['consts'].get('value'), r['loc'])
+    for key, vs in groups.items():
+        if len(vs) < 2: continue
+        R.anchor('cv-variants')
+        outs = {(v[0], v[1]) for v in vs.values()}
+        ok = len(outs) == 1
+        R.ob('C18.cv-key', ok, {'metafunction': key[0], 'arguments': [Facts.short(x, 40) for x in key[1]], 'variants': len(vs)})
+        if not ok:
+            loc = list(vs.values())[0][2]
+            R.find('C18.cv-key', (loc.split(':')[0], key[0]), 'cv:' + key[0].split('::')[-1], '%s gives different answers for argument lists that differ only in cv / reference qualifiers: %s' % (key[0], ['%s -> %s' % (Facts.short(k[-1], 40), Facts.short(str(v[0] if v[0] is not None else v[1]), 40)) for k, v in vs.items()]), where=loc, instance=' / '.join(Facts.short(x, 60) for x in key[1]))
